@@ -1188,8 +1188,24 @@ impl TransportManager {
                             }
                         }
                         InnerTransportManagerCommand::DialAddress { address } => {
-                            if let Err(error) = self.dial_address(address).await {
-                                tracing::debug!(target: LOG_TARGET, ?error, "failed to dial peer")
+                            if let Err(error) = self.dial_address(address.clone()).await {
+                                tracing::debug!(target: LOG_TARGET, ?address, ?error, "failed to dial peer");
+
+                                // As for `DialPeer`: the request was accepted when it was queued, so
+                                // the protocols must learn that it has ended.
+                                if !std::matches!(error, Error::AlreadyConnected) {
+                                    if let Some(peer) = PeerId::try_from_multiaddr(&address) {
+                                        for context in self.protocols.values() {
+                                            let event = InnerTransportEvent::DialFailure {
+                                                peer,
+                                                addresses: vec![address.clone()],
+                                            };
+                                            if let Err(error) = context.tx.try_send(event) {
+                                                let _ = context.tx.send(error.into_inner()).await;
+                                            }
+                                        }
+                                    }
+                                }
                             }
                         }
                         InnerTransportManagerCommand::UnregisterProtocol { protocol } => {
